@@ -66,6 +66,7 @@ Definition run_typed (inp : table * list str * pkt * list str) : sx :=
        SZ 0;                                                        (* Sender.SendIQ: never *)
        SL (map attrs_sx (deliveries ev));
        SL (map SS pend');
-       SL (map SS ended') ].                                        (* ended requests still registered *)
+       SL (map SS ended');                                          (* ended requests still registered *)
+       SZ 0 ].   (* builder calls that rewrote the caller's argument slice: the builders are functions of their arguments *)
 
 Definition run_C06 : sx -> sx := with_input dec_input run_typed.
